@@ -70,6 +70,7 @@ def fd_check(fl, nraw, rng, npts=9, h=1e-5):
         fd = (4 * f1 - f2) / 3
         est = np.abs(f1 - f2)
         err = np.abs(fd - dfdx[r]) - 20 * est - 1e-7 * (1 + np.abs(fd))
+        err = np.where(np.isfinite(err), err, np.inf)      # a non-finite derivative is never 'within tolerance'
         worst = max(worst, float(err.max()))
     return worst, dfdx, x, dfdy
 
@@ -149,6 +150,7 @@ def normalizer_checks(ck, rng):
                     f2 = (F(X + 2 * d) - F(X - 2 * d)) / (4 * h)
                     fd = (4 * f1 - f2) / 3
                     err = np.abs(fd - g[:, i]) - 20 * np.abs(f1 - f2) - 1e-7 * (1 + np.abs(fd))
+                    err = np.where(np.isfinite(err), err, np.inf)
                     worst = max(worst, float(err.max()))
                 if worst > 0:
                     ck.violation("normalizer-list:%s:reverse-mode-vs-fd" % mode, {"nspin": nspin, "excess": worst,
